@@ -41,7 +41,9 @@ import (
 	"github.com/linkedin/Burrow/core/protocol"
 )
 
-var vwPatterns = []string{"", "^a", "b$", ".*", "^$", "^(a|b)", "x"}
+// pattern pool; index 0 = the list is not configured at all, index 7 = the key is present with the empty string as its value
+// (as the shipped config/burrow.toml writes group-allowlist=""), which means "no list" as well
+var vwPatterns = []string{"", "^a", "b$", ".*", "^$", "^(a|b)", "x", ""}
 
 const vwChildMemKB = 4 * 1024 * 1024
 const vwCaseTimeout = 20 * time.Second
@@ -173,8 +175,8 @@ func vwDeathReason(runErr error, out []byte) string {
 // ---------------------------------------------------------------------------------------------------------------
 
 type vwModKey struct {
-	name, cluster string
-	allow, deny   int
+	name, cluster, mode string
+	allow, deny         int
 }
 
 type vwEnv struct {
@@ -183,26 +185,44 @@ type vwEnv struct {
 }
 
 // module builds (once per configuration) a consumer module called `name` that reads for cluster `cluster`, the way
-// fixtureModule() + Configure do.  The two names are different strings in most cases.
-func (e *vwEnv) module(name, cluster string, allow, deny int) *KafkaClient {
-	k := vwModKey{name, cluster, allow, deny}
+// fixtureModule() + Configure do.  The two names are different strings in most cases.  mode "S": every key is put with
+// viper.Set; mode "T": the whole configuration is a TOML document read with viper.ReadConfig (what Burrow does with its
+// configuration file; viper.IsSet and friends see the two differently).
+func (e *vwEnv) module(name, cluster, mode string, allow, deny int) *KafkaClient {
+	k := vwModKey{name, cluster, mode, allow, deny}
 	if m, ok := e.modules[k]; ok {
 		return m
 	}
 	module := &KafkaClient{Log: zap.NewNop()}
 	module.App = &protocol.ApplicationContext{StorageChannel: e.ch}
 	viper.Reset()
-	viper.Set("client-profile..client-id", "testid")
-	viper.Set("cluster."+cluster+".class-name", "kafka")
-	viper.Set("cluster."+cluster+".servers", []string{"broker1.example.com:1234"})
-	viper.Set("consumer."+name+".class-name", "kafka")
-	viper.Set("consumer."+name+".servers", []string{"broker1.example.com:1234"})
-	viper.Set("consumer."+name+".cluster", cluster)
-	if allow != 0 {
-		viper.Set("consumer."+name+".group-allowlist", vwPatterns[allow])
-	}
-	if deny != 0 {
-		viper.Set("consumer."+name+".group-denylist", vwPatterns[deny])
+	if mode == "T" {
+		var doc strings.Builder
+		fmt.Fprintf(&doc, "[cluster.%s]\nclass-name=\"kafka\"\nservers=[ \"broker1.example.com:1234\" ]\n\n", cluster)
+		fmt.Fprintf(&doc, "[consumer.%s]\nclass-name=\"kafka\"\nservers=[ \"broker1.example.com:1234\" ]\ncluster=\"%s\"\n", name, cluster)
+		if allow != 0 {
+			fmt.Fprintf(&doc, "group-allowlist='%s'\n", vwPatterns[allow])
+		}
+		if deny != 0 {
+			fmt.Fprintf(&doc, "group-denylist='%s'\n", vwPatterns[deny])
+		}
+		viper.SetConfigType("toml")
+		if err := viper.ReadConfig(strings.NewReader(doc.String())); err != nil {
+			panic("verif probe: TOML configuration: " + err.Error())
+		}
+	} else {
+		viper.Set("client-profile..client-id", "testid")
+		viper.Set("cluster."+cluster+".class-name", "kafka")
+		viper.Set("cluster."+cluster+".servers", []string{"broker1.example.com:1234"})
+		viper.Set("consumer."+name+".class-name", "kafka")
+		viper.Set("consumer."+name+".servers", []string{"broker1.example.com:1234"})
+		viper.Set("consumer."+name+".cluster", cluster)
+		if allow != 0 {
+			viper.Set("consumer."+name+".group-allowlist", vwPatterns[allow])
+		}
+		if deny != 0 {
+			viper.Set("consumer."+name+".group-denylist", vwPatterns[deny])
+		}
 	}
 	module.Configure(name, "consumer."+name)
 	e.modules[k] = module
@@ -306,8 +326,8 @@ func vwFmtReq(r *protocol.StorageRequest) string {
 }
 
 // vwProcess runs the real processConsumerOffsetsMessage on one message and projects what it did.
-func vwProcess(env *vwEnv, name, cluster string, allow, deny int, order int64, key, value []byte) (res string) {
-	module := env.module(name, cluster, allow, deny)
+func vwProcess(env *vwEnv, name, cluster, mode string, allow, deny int, order int64, key, value []byte) (res string) {
+	module := env.module(name, cluster, mode, allow, deny)
 	for len(env.ch) > 0 {
 		<-env.ch
 	}
@@ -373,23 +393,23 @@ func vwRunCase(env *vwEnv, line string) string {
 	tk := &vwToks{f: strings.Fields(line)}
 	switch tk.next() {
 	case "msg":
-		name, cluster := string(tk.hexb()), string(tk.hexb())
+		name, cluster, mode := string(tk.hexb()), string(tk.hexb()), tk.next()
 		allow, deny := tk.int(), tk.int()
 		order := tk.i64()
 		key, value := tk.hexb(), tk.hexb()
-		return vwProcess(env, name, cluster, allow, deny, order, key, value)
+		return vwProcess(env, name, cluster, mode, allow, deny, order, key, value)
 	case "vo":
-		name, cluster := string(tk.hexb()), string(tk.hexb())
+		name, cluster, mode := string(tk.hexb()), string(tk.hexb()), tk.next()
 		allow, deny := tk.int(), tk.int()
 		order := tk.i64()
 		key, value := vwEncOffset(tk)
-		return "K " + vwHex(string(key)) + " V " + vwHex(string(value)) + " => " + vwProcess(env, name, cluster, allow, deny, order, key, value)
+		return "K " + vwHex(string(key)) + " V " + vwHex(string(value)) + " => " + vwProcess(env, name, cluster, mode, allow, deny, order, key, value)
 	case "vm":
-		name, cluster := string(tk.hexb()), string(tk.hexb())
+		name, cluster, mode := string(tk.hexb()), string(tk.hexb()), tk.next()
 		allow, deny := tk.int(), tk.int()
 		order := tk.i64()
 		key, value := vwEncMeta(tk)
-		return "K " + vwHex(string(key)) + " V " + vwHex(string(value)) + " => " + vwProcess(env, name, cluster, allow, deny, order, key, value)
+		return "K " + vwHex(string(key)) + " V " + vwHex(string(value)) + " => " + vwProcess(env, name, cluster, mode, allow, deny, order, key, value)
 	case "re":
 		// the module's accept decision, observed through the pinned entry point only: a well-formed offset commit for
 		// the group yields its update exactly when the lists accept the group
@@ -404,23 +424,25 @@ func vwRunCase(env *vwEnv, line string) string {
 		v.i64(1)
 		v.str(nil)
 		v.i64(2)
-		if strings.HasPrefix(vwProcess(env, "test", "test", allow, deny, 0, k.Bytes(), v.Bytes()), "OK 1 ") {
+		if strings.HasPrefix(vwProcess(env, "test", "test", "S", allow, deny, 0, k.Bytes(), v.Bytes()), "OK 1 ") {
 			return "ACC 1"
 		}
 		return "ACC 0"
 	case "c10":
 		// C10, reader half: what the real regexp package answers for the configured patterns on the group (four
 		// booleans), what the module forwards for the message with the lists, and what it forwards without any list
-		name, cluster := string(tk.hexb()), string(tk.hexb())
+		name, cluster, mode := string(tk.hexb()), string(tk.hexb()), tk.next()
 		allow, deny := tk.int(), tk.int()
 		order := tk.i64()
 		g := tk.hexb()
 		key, value := tk.hexb(), tk.hexb()
-		aM := allow != 0 && regexp.MustCompile(vwPatterns[allow]).MatchString(string(g))
-		dM := deny != 0 && regexp.MustCompile(vwPatterns[deny]).MatchString(string(g))
-		with := vwStripInfo(vwProcess(env, name, cluster, allow, deny, order, key, value))
-		without := vwStripInfo(vwProcess(env, name, cluster, 0, 0, order, key, value))
-		return fmt.Sprintf("B %s %s %s %s => %s || %s", vwBit(allow != 0), vwBit(aM), vwBit(deny != 0), vwBit(dM), with, without)
+		// a list is "set" when its key holds a non-empty pattern text: an absent key and an empty string both mean no list
+		aSet, dSet := allow != 0 && vwPatterns[allow] != "", deny != 0 && vwPatterns[deny] != ""
+		aM := aSet && regexp.MustCompile(vwPatterns[allow]).MatchString(string(g))
+		dM := dSet && regexp.MustCompile(vwPatterns[deny]).MatchString(string(g))
+		with := vwStripInfo(vwProcess(env, name, cluster, mode, allow, deny, order, key, value))
+		without := vwStripInfo(vwProcess(env, name, cluster, mode, 0, 0, order, key, value))
+		return fmt.Sprintf("B %s %s %s %s => %s || %s", vwBit(aSet), vwBit(aM), vwBit(dSet), vwBit(dM), with, without)
 	}
 	return "BADCASE"
 }
@@ -459,10 +481,10 @@ func vwConcurrent(t *testing.T, lines []string, workers int, outPath string) {
 	for i, line := range lines {
 		tk := &vwToks{f: strings.Fields(line)}
 		kind := tk.next()
-		name, cluster := string(tk.hexb()), string(tk.hexb())
+		name, cluster, mode := string(tk.hexb()), string(tk.hexb()), tk.next()
 		allow, deny := tk.int(), tk.int()
 		if module == nil {
-			module = env.module(name, cluster, allow, deny) // one module for the whole batch
+			module = env.module(name, cluster, mode, allow, deny) // one module for the whole batch
 		}
 		c := vwConcCase{order: tk.i64()}
 		switch kind {
